@@ -36,7 +36,7 @@ def out_term(o):
             return "OInvalid"
         return f"(OEntered ({o['c'][0]}, {o['c'][1]}) {cid(o['parent'])})"
     if k == "Current":
-        return f"(OCurrent {cid(o['c'])})"
+        return f"(OCurrent {cid(o['c'])})" if o.get("td_ok", True) else "OInvalid"
     if k == "Parent":
         return f"(OParent {cid(o['p'])})" if o.get("comp_ok", True) and o.get("view_ok", True) else "OInvalid"
     if k == "Spawned":
@@ -86,6 +86,10 @@ def oracle(r):
             if o["c"] != now:
                 bad.append((f"C12:restore:{op['how']}", f"step {i}: after leaving ({op['how']}) task {t} sees {o['c']}, "
                             f"before entry it saw {now}"))
+            if not o.get("td_ok", True):
+                bad.append(("C12:during-teardown", f"step {i}: inside a teardown callback of the context being left "
+                            f"({op['how']}): current_context() is that context: {o.get('td', {}).get('cur')}, a new "
+                            f"context takes it as parent: {o.get('td', {}).get('parent')}"))
         elif op["op"] == "Observe":
             if o["c"] != top:
                 bad.append(("C12:isolation", f"step {i}: task {t} observes {o['c']}, its own innermost context is {top}"))
